@@ -16,6 +16,9 @@ Good(e) ==
                            /\ e.read = e.n /\ e.intact = "yes"
       [] e.ev = "conc"  -> /\ e.distinctctrs = e.msgs /\ e.delivered = e.msgs /\ e.dups = 0 /\ e.corrupt = 0
       [] e.ev = "longrun" -> e.delivered = e.sent /\ e.redelivered = 0 /\ e.moved = 0
+      \* copies of the session's own handshake datagrams arriving after it finished, then the handshake timeout:
+      \* the established session still delivers what both ends write
+      [] e.ev = "latehs"  -> e.delivered = e.sent
       [] OTHER -> FALSE
 TInit == l = 1 /\ bad = 0
 TNext == /\ l <= Len(Trace) /\ l' = l + 1
